@@ -387,6 +387,57 @@ func c9inputUnits(tier string) []mc.Unit {
 		r.AddTransitions(cnt)
 		r.AddNontrivial(cnt)
 	}})
+	// fragments that are related to one another: alternatives whose inserts are reverse complements, rotations or
+	// copies of each other, the same fragment supplied twice or in both orientations, a palindromic insert, the same
+	// insert in two slots; every input order (pools of up to 5), depth-first and round-robin schedules
+	us = append(us, mc.Unit{Name: "inputs/related-fragments", Serial: true, Weight: 80, Run: func(r *mc.Recorder) {
+		var cnt int64
+		o := c9overhangs
+		x, y, z := "ACAAGCTCA", "ACTTCGGACA", "ACGGATTTCA"
+		pal := "ACGAATTCGT" // its own reverse complement
+		ring := func(b0, b1 string) []c9frag { return []c9frag{{o[0], b0, o[1]}, {o[1], b1, o[0]}} }
+		pools := []struct {
+			name string
+			fr   []c9frag
+		}{
+			{"alternatives that are reverse complements", append(ring(x, y), c9frag{o[0], c9rc(x), o[1]})},
+			{"alternatives that are rotations", append(ring(x, y), c9frag{o[0], x[3:] + x[:3], o[1]})},
+			{"the same fragment twice", append(ring(x, y), c9frag{o[0], x, o[1]})},
+			{"a fragment and its flipped copy", append(ring(x, y), c9frag{o[0], x, o[1]}.flip())},
+			{"every fragment twice", append(ring(x, y), ring(x, y)...)},
+			{"palindromic insert", ring(pal, y)},
+			{"palindromic insert and its copy", append(ring(pal, y), c9frag{o[0], pal, o[1]})},
+			{"the same insert in both slots", ring(x, x)},
+			{"inserts reverse complementary across slots", ring(x, c9rc(x))},
+			{"three slots, same insert twice", []c9frag{{o[0], x, o[1]}, {o[1], y, o[2]}, {o[2], x, o[0]}}},
+			{"three slots, alternatives reverse complementary, one duplicate", []c9frag{{o[0], x, o[1]}, {o[0], c9rc(x), o[1]}, {o[1], y, o[2]}, {o[2], z, o[0]}, {o[1], y, o[2]}}},
+			{"two slots, three alternatives two of them equal", []c9frag{{o[0], x, o[1]}, {o[0], z, o[1]}, {o[0], x, o[1]}, {o[1], y, o[0]}}},
+		}
+		for _, p := range pools {
+			want := c9rings(p.fr)
+			permutations(len(p.fr), func(pp []int) {
+				in := make([]c9frag, len(p.fr))
+				for i, j := range pp {
+					in[i] = p.fr[j]
+				}
+				for _, rr := range []bool{false, true} {
+					once(func(c *mc.Ctx) {
+						out, parts := runLigate(c, toClone(in), sched.Options{Horizon: 20000, MaxTasks: 5000, RoundRobin: rr})
+						c9judge(r, fmt.Sprintf("pool=%s order=%v round-robin=%v", p.name, pp, rr), []string{"inputs", "related"}, nil, out, parts, want)
+					})
+					cnt++
+				}
+			})
+			if r.Enough() {
+				break
+			}
+		}
+		r.Eval(cnt)
+		r.AddStates(cnt)
+		r.AddTransitions(cnt)
+		r.AddNontrivial(cnt)
+		r.Bound("inputs/related-fragments", fmt.Sprintf("%d pools of related fragments x every input order x 2 schedules", len(pools)))
+	}})
 	return us
 }
 
